@@ -288,7 +288,9 @@ def get_cauchy_point(
     delta_t_min = 0 if delta_t_min < 0 else delta_t_min
     t_old += delta_t_min
 
-    x_cp[t >= t_cur] = (x + t_old * d)[t >= t_cur]
+    # only the variables that are still free move (d is zeroed when a variable is
+    # fixed): one fixed at a breakpoint tied with t_cur must stay on its bound
+    x_cp[d != 0] = (x + t_old * d)[d != 0]
 
     c += delta_t_min * p
 
